@@ -16,6 +16,23 @@ def lpt(vals, k):
     return bins
 
 
+def lpt_with_heuristic3(vals, k):
+    """
+    LPT with Korf's heuristic 3 (documented in complete_greedy.py, min-max objective only): as soon as the remaining items plus the
+    smallest sum do not exceed the largest sum, all remaining items go to the bin with the smallest sum.
+    Its largest sum always equals plain LPT's largest sum.
+    """
+    items = sorted(vals, reverse=True)
+    sums = [0] * k
+    for i, v in enumerate(items):
+        lo = min(range(k), key=lambda j: sums[j])
+        if sum(items[i:]) + sums[lo] <= max(sums):
+            sums[lo] += sum(items[i:])
+            break
+        sums[lo] += v
+    return sums
+
+
 def roundrobin(vals, k):
     """Cyclic dealing of the items sorted in non-increasing order."""
     bins = [[] for _ in range(k)]
